@@ -85,14 +85,15 @@ def main():
                     n += 1
         old_meta = os.path.join(dst, "meta.json")
         if os.path.exists(old_meta):
-            for k in ("needs", "ran", "rebased", "relabelled"):
+            for k in ("needs", "ran", "rebased", "relabelled", "obsolete", "demo_edited"):
                 v = json.load(open(old_meta)).get(k)
                 if v:
                     meta[k] = v
         if a.skip_suite and os.path.exists(old_meta):
             prev = json.load(open(old_meta))
             if "suite_with_patch" in prev:
-                meta["suite_with_patch"] = prev["suite_with_patch"] + " (from the first evaluation of this seed)"
+                note = " (from the first evaluation of this seed)"
+                meta["suite_with_patch"] = prev["suite_with_patch"].replace(note, "") + note
         meta["confirmed"] = bool(meta["demo_unchanged_exit"] == 0 and meta["patch_applies"]
                                  and meta["demo_patched_exit"] != 0
                                  and "missing=0" in meta.get("suite_with_patch", ""))
